@@ -327,7 +327,7 @@ func TestC10(t *testing.T) {
 	}
 
 	kinds := 4
-	rounds := 60
+	rounds := 96
 	if os.Getenv("VERIF_TIER") == "thorough" {
 		kinds = 24
 		rounds = 300
@@ -345,8 +345,13 @@ func TestC10(t *testing.T) {
 		for i := range xs {
 			xs[i] = i + 1
 		}
-		want := n * (n + 1) / 2
-		m := mk(mSum)
+		// the sum sees a lost or a repeated element, the minimum (of 1..N: 1) an element that was never sent - a zero value
+		// read off the closed channel is below every input
+		code, want := mSum, n*(n+1)/2
+		if r%2 == 1 {
+			code, want = mMin, 1
+		}
+		m := mk(code)
 		ctx, cancel := context.WithCancel(context.Background())
 		obs, closed := collect(fork.Fold(ctx, par, pipe.Seq(xs...), m), patience())
 		cancel()
@@ -356,8 +361,8 @@ func TestC10(t *testing.T) {
 		} else {
 			failed++
 		}
-		if !ok || (n == 2000 && passed <= 2) {
-			c := &Case{Monoid: mSum, Par: par, Mode: 3, Input: []int{}, N: n, Observed: obs, Closed: closed, PFold: []int{want}, PClosed: true, Loop: want}
+		if !ok || (n == 2000 && passed <= 4) {
+			c := &Case{Monoid: code, Par: par, Mode: 3, Input: []int{}, N: n, Observed: obs, Closed: closed, PFold: []int{want}, PClosed: true, Loop: want}
 			if err := enc.Encode(c); err != nil {
 				t.Fatal(err)
 			}
